@@ -487,6 +487,16 @@ func (fs *FS) FailNext(op, path string, errno int) {
 	fs.mu.Unlock()
 }
 
+// PanicNext makes the next call of op on the File at path panic.
+func (fs *FS) PanicNext(op, path string) {
+	fs.mu.Lock()
+	if fs.faultNext == nil {
+		fs.faultNext = map[string]Fault{}
+	}
+	fs.faultNext[op+" "+path] = Fault{Panic: true}
+	fs.mu.Unlock()
+}
+
 // Arm marks that a request is outstanding (faults indexed by armed-call
 // number only strike while armed).
 func (fs *FS) Arm(on bool) {
